@@ -16,6 +16,10 @@
     Everything that holds the span *entered* is an [ent]: a borrowed `Entered<'_>` guard, an `EnteredSpan`, a running
     `in_scope` closure, a running `Instrumented::poll`, and the transient guard of `PinnedDrop`.
 
+    Collectors are abstract; numbers 1, 2 return from `clone_span` the id they were given, numbers 3, 4, ... hand out a
+    fresh alias id per handle and do not track the current span.  [md0] is the semantics in terms of spans (what the
+    theorems count), [mh] the ghost layer of the ids actually on the wire ([d_hid], [d_hlog]); [md] = both.
+
     The state is a pair (own, dyn).  [own] is what rustc tracks (which names are live, what borrows them, on which
     thread a !Send guard lives, each thread's control stack); [compile] and [mo] read and write *only* [own], so
     well-formedness [wf_prog] is static by construction.  [dyn] holds the span values, the thread-default stacks,
@@ -301,25 +305,27 @@ Record dyn := mkDyn {
   d_log : list entry;                (* NEWEST FIRST *)
   d_made : list key;                 (* ghost: one element per Span value with an enabled inner that came into existence *)
   d_dropped : list key;              (* ghost: one element per such value dropped *)
-  d_disp : list (name * cid)         (* the Dispatch captured by the WithDispatch wrapper of a future *)
+  d_disp : list (name * cid);        (* the Dispatch captured by the WithDispatch wrapper of a future *)
+  d_hid : list (name * sid);         (* the id the collector issued for the handle held under each name (what Span::id() says) *)
+  d_hlog : list (sid * sid)          (* parallel to d_log: (the id the call was made with, the id it returned / was given besides) *)
 }.
 
 Definition val_of (d : dyn) (n : name) : sval := match lookup (d_vals d) n with Some v => v | None => SNone end.
 Definition set_val (d : dyn) (n : name) (v : sval) : dyn :=
-  mkDyn ((n, v) :: d_vals d) (d_defaults d) (d_next d) (d_log d) (d_made d) (d_dropped d) (d_disp d).
+  mkDyn ((n, v) :: d_vals d) (d_defaults d) (d_next d) (d_log d) (d_made d) (d_dropped d) (d_disp d) (d_hid d) (d_hlog d).
 Definition emit (d : dyn) (e : entry) : dyn :=
-  mkDyn (d_vals d) (d_defaults d) (d_next d) (e :: d_log d) (d_made d) (d_dropped d) (d_disp d).
+  mkDyn (d_vals d) (d_defaults d) (d_next d) (e :: d_log d) (d_made d) (d_dropped d) (d_disp d) (d_hid d) (d_hlog d).
 Definition note_made (d : dyn) (v : key) : dyn :=
-  mkDyn (d_vals d) (d_defaults d) (d_next d) (d_log d) (v :: d_made d) (d_dropped d) (d_disp d).
+  mkDyn (d_vals d) (d_defaults d) (d_next d) (d_log d) (v :: d_made d) (d_dropped d) (d_disp d) (d_hid d) (d_hlog d).
 Definition note_dropped (d : dyn) (v : key) : dyn :=
-  mkDyn (d_vals d) (d_defaults d) (d_next d) (d_log d) (d_made d) (v :: d_dropped d) (d_disp d).
+  mkDyn (d_vals d) (d_defaults d) (d_next d) (d_log d) (d_made d) (v :: d_dropped d) (d_disp d) (d_hid d) (d_hlog d).
 Definition cur_default (d : dyn) (t : tid) : cid :=
   match lookup (d_defaults d) t with Some c => c | None => 0 end.
 Definition disp_of (d : dyn) (f : name) : cid := match lookup (d_disp d) f with Some c => c | None => 0 end.
 Definition with_defaults (d : dyn) (x : list (tid * cid)) : dyn :=
-  mkDyn (d_vals d) x (d_next d) (d_log d) (d_made d) (d_dropped d) (d_disp d).
+  mkDyn (d_vals d) x (d_next d) (d_log d) (d_made d) (d_dropped d) (d_disp d) (d_hid d) (d_hlog d).
 Definition with_disp (d : dyn) (x : list (name * cid)) : dyn :=
-  mkDyn (d_vals d) (d_defaults d) (d_next d) (d_log d) (d_made d) (d_dropped d) x.
+  mkDyn (d_vals d) (d_defaults d) (d_next d) (d_log d) (d_made d) (d_dropped d) x (d_hid d) (d_hlog d).
 
 (** The abstract collector's `current_span` on thread t: the innermost span it was told is entered there
     (`exit` removes the most recent occurrence). *)
@@ -340,15 +346,21 @@ Fixpoint stack_of (l : list entry) (c : cid) (t : tid) : list sid :=
 Definition id_of_val (v : sval) : option sid :=
   match v with SNone => None | SNoColl => Some NOCOLL_ID | SSpan i _ => Some i end.
 
+(** Collectors 3, 4, ... hand out a FRESH id from `clone_span` (one id per handle, all aliases of the same span; "if the
+    id is itself a pointer of some kind this can be used as a hook to clone the pointer") and do not track the current
+    span (`current_span` = the trait's default `Current::unknown()`); collectors 1 and 2 return the id they were given. *)
+Definition per_handle (c : cid) : bool := 3 <=? c.
+
 Definition do_current (d : dyn) (n : name) (t : tid) : dyn :=
   let c := cur_default d t in
-  if c =? 0 then set_val d n SNone
+  if (c =? 0) || per_handle c then set_val d n SNone
   else match stack_of (d_log d) c t with
        | i :: _ => note_made (set_val (emit d (ECall c t (CClone i))) n (SSpan i c)) (i, c)
        | [] => set_val d n SNone
        end.
 
-Definition md (m : micro) (d : dyn) : dyn :=
+(** [md0]: what the collectors are told, in terms of SPANS (every alias of a span is written as the id new_span returned) *)
+Definition md0 (m : micro) (d : dyn) : dyn :=
   match m with
   | MNewSpan n t h p =>
       let c := cur_default d t in
@@ -363,7 +375,7 @@ Definition md (m : micro) (d : dyn) : dyn :=
                   end in
         let i := d_next d in
         let d1 := emit d (ECall c t (CNew i po)) in
-        let d2 := mkDyn (d_vals d1) (d_defaults d1) (i + 1) (d_log d1) ((i, c) :: d_made d1) (d_dropped d1) (d_disp d1) in
+        let d2 := mkDyn (d_vals d1) (d_defaults d1) (i + 1) (d_log d1) ((i, c) :: d_made d1) (d_dropped d1) (d_disp d1) (d_hid d1) (d_hlog d1) in
         set_val d2 n (SSpan i c)
   | MCloneTo r n t =>
       match val_of d r with
@@ -397,8 +409,59 @@ Definition md (m : micro) (d : dyn) : dyn :=
   | MSwap a b => let va := val_of d a in let vb := val_of d b in set_val (set_val d a vb) b va
   end.
 
+(** [mh]: the ids actually on the wire.  Each handle carries the id its collector issued for it ([d_hid]: what
+    `Span::id()` returns); every call is made with the id of the handle it goes through; [d_hlog] records, parallel to
+    [d_log], that id and the second id of the call (clone_span: the id returned, new_span: the parent given,
+    record_follows_from: the `from` id).  For collectors 1, 2 these ids are the span ids of [d_log]. *)
+Definition hid_of (d : dyn) (n : name) : sid := match lookup (d_hid d) n with Some h => h | None => 0 end.
+Definition with_h (d : dyn) (hid : list (name * sid)) (hlog : list (sid * sid)) (next : sid) : dyn :=
+  mkDyn (d_vals d) (d_defaults d) next (d_log d) (d_made d) (d_dropped d) (d_disp d) hid hlog.
+Definition hpush (d : dyn) (x : sid * sid) : dyn := with_h d (d_hid d) (x :: d_hlog d) (d_next d).
+Definition set_hid (d : dyn) (n : name) (h : sid) : dyn := with_h d ((n, h) :: d_hid d) (d_hlog d) (d_next d).
+Definition shown_id (d : dyn) (n : name) : sid :=          (* Span::id() of a handle *)
+  match val_of d n with SNone => 0 | _ => hid_of d n end.
+
+Definition mh (m : micro) (d d' : dyn) : dyn :=
+  match m with
+  | MNewSpan n _ _ p =>
+      match val_of d' n with
+      | SSpan i _ => set_hid (hpush d' (i, match parent_ref p with Some r => shown_id d r | None => 0 end)) n i
+      | SNoColl => set_hid d' n NOCOLL_ID
+      | SNone => set_hid d' n 0
+      end
+  | MCloneTo r n _ =>
+      match val_of d r with
+      | SSpan _ c =>
+          let h := hid_of d r in
+          if per_handle c then
+            let j := d_next d' in
+            with_h d' ((n, j) :: d_hid d') ((h, j) :: d_hlog d') (j + 1)
+          else set_hid (hpush d' (h, h)) n h
+      | _ => set_hid d' n (hid_of d r)
+      end
+  | MCurrentTo n _ =>
+      match val_of d' n with SSpan i _ => set_hid (hpush d' (i, i)) n i | _ => set_hid d' n 0 end
+  | MOrCurrent n _ =>
+      match val_of d n with
+      | SNone => match val_of d' n with SSpan i _ => set_hid (hpush d' (i, i)) n i | _ => set_hid d' n 0 end
+      | _ => d'
+      end
+  | MRelease n _ | MRecord n _ => match val_of d n with SSpan _ _ => hpush d' (hid_of d n, 0) | _ => d' end
+  | MEnterE e | MExitE e => match val_of d (e_holder e) with SSpan _ _ => hpush d' (hid_of d (e_holder e), 0) | _ => d' end
+  | MFollows r r' _ =>
+      match val_of d r, id_of_val (val_of d r') with
+      | SSpan _ _, Some _ => hpush d' (hid_of d r, hid_of d r')
+      | _, _ => d'
+      end
+  | MMark _ _ => hpush d' (0, 0)
+  | MSwap a b => with_h d' ((b, hid_of d a) :: (a, hid_of d b) :: d_hid d') (d_hlog d') (d_next d')
+  | MSetKind _ _ | MPushDefault _ _ | MPopDefault _ | MSetDisp _ _ _ | MPushDisp _ _ | MCopyDisp _ _ => d'
+  end.
+
+Definition md (m : micro) (d : dyn) : dyn := mh m d (md0 m d).
+
 Definition state := (own * dyn)%type.
-Definition d_init : dyn := mkDyn [] [] 1 [] [] [] [].
+Definition d_init : dyn := mkDyn [] [] 1 [] [] [] [] [] [].
 Definition s_init : state := (o_init, d_init).
 
 Fixpoint exec (ms : list micro) (s : state) : option state :=
@@ -418,17 +481,20 @@ Definition trace (p : prog) : list entry := match run p with Some s => rev (d_lo
 (** * Observation used by the correspondence: per op, the entries it appended (oldest first) and the id of the
       Span value the op produced (0 = none / not a producing op); stops at the first rejected op. *)
 Definition enc_pobs (p : pobs) : N * N := match p with ORoot => (0, 0) | OCtx => (1, 0) | OExp j => (2, j) end.
-Definition enc_entry (e : entry) : N * N * N * N * N * N :=
+(** an entry as the collector sees it: with the ids on the wire ([x] = the entry's element of [d_hlog]) *)
+Definition enc_entry (ex : entry * (sid * sid)) : N * N * N * N * N * N :=
+  let (e, x) := ex in
+  let (u, a) := x in
   match e with
   | ECall c t k =>
       match k with
-      | CNew i p => (c, t, 1, i, fst (enc_pobs p), snd (enc_pobs p))
-      | CClone i => (c, t, 2, i, 0, 0)
-      | CClose i => (c, t, 3, i, 0, 0)
-      | CEnter i => (c, t, 4, i, 0, 0)
-      | CExit i => (c, t, 5, i, 0, 0)
-      | CRecord i => (c, t, 6, i, 0, 0)
-      | CFollows i j => (c, t, 7, i, j, 0)
+      | CNew i p => (c, t, 1, i, fst (enc_pobs p), match p with OExp _ => a | _ => 0 end)
+      | CClone _ => (c, t, 2, u, a, 0)
+      | CClose _ => (c, t, 3, u, 0, 0)
+      | CEnter _ => (c, t, 4, u, 0, 0)
+      | CExit _ => (c, t, 5, u, 0, 0)
+      | CRecord _ => (c, t, 6, u, 0, 0)
+      | CFollows _ _ => (c, t, 7, u, a, 0)
       end
   | EMark t (MBody f) => (0, t, 8, f, 0, 0)
   | EMark t (MInnerDrop f) => (0, t, 9, f, 0, 0)
@@ -438,17 +504,18 @@ Definition produced (a : action) : option name :=
   match a with New n _ _ | Clone _ n | Current n | OrCurrent n | ExitOwned n | CloneFut _ n | SpanMutSwap _ n => Some n
   | _ => None end.
 Definition enc_id (v : sval) : N := match id_of_val v with Some i => i + 1 | None => 0 end.
+Definition enc_shown (d : dyn) (n : name) : N := match val_of d n with SNone => 0 | _ => hid_of d n + 1 end.
 Definition b2N (b : bool) : N := if b then 1 else 0.
 (** the answers of the pure accessors (the `log` feature is off: every inner-less Span the API hands out is Span::none()) *)
-Definition query_res (v : sval) (q : N) : N :=
+Definition query_res (v : sval) (shown : N) (q : N) : N :=
   match q with
   | 0 => b2N (match v with SNone => true | _ => false end)          (* is_none *)
   | 1 => b2N (match v with SNone => true | _ => false end)          (* is_disabled *)
-  | 2 => enc_id v                                                    (* id *)
+  | 2 => shown                                                       (* id: the id the collector issued for this handle *)
   | _ => b2N (match v with SNone => false | _ => true end)          (* metadata().is_some() *)
   end.
 
-Definition firstn_new (older : nat) (l : list entry) : list entry :=
+Definition firstn_new {A} (older : nat) (l : list A) : list A :=
   (* the entries of l (newest first) in front of its last [older] ones, returned oldest first *)
   rev (firstn (length l - older) l).
 
@@ -459,10 +526,10 @@ Fixpoint obs_from (s : state) (p : prog) : list (list (N * N * N * N * N * N) * 
       match step s x with
       | None => ([], false)
       | Some s' =>
-          let new := firstn_new (length (d_log (snd s))) (d_log (snd s')) in
+          let new := firstn_new (length (d_log (snd s))) (combine (d_log (snd s')) (d_hlog (snd s'))) in
           let res := match snd x with
-                     | Query r q => query_res (val_of (snd s') r) q
-                     | a => match produced a with Some n => enc_id (val_of (snd s') n) | None => 0 end
+                     | Query r q => query_res (val_of (snd s') r) (enc_shown (snd s') r) q
+                     | a => match produced a with Some n => enc_shown (snd s') n | None => 0 end
                      end in
           let (rest, ok) := obs_from s' p' in
           ((map enc_entry new, res) :: rest, ok)
